@@ -18,7 +18,7 @@ import (
 
 type c13wCase struct {
 	Stack    StackCfg `json:"stack"`
-	Order    []int    `json:"order"`     // 0 = A's Acquire, 1 = A's cancellation
+	Order    []int    `json:"order"`      // 0 = A's Acquire, 1 = A's cancellation
 	BAfterMs int      `json:"b_after_ms"` // B arrives that long after A
 	BBoundMs int      `json:"b_bound_ms"` // blocking: B is cancelled that long after its arrival (deadline kind: the deadline bounds B)
 	Yields   []uint8  `json:"yields"`
